@@ -118,14 +118,8 @@ Fixpoint distinct_ranks (t : list (N * Z)) (l : list N) : bool :=
   | v :: l' => forallb (fun w => negb (Z.eqb (lookup1 t 0%Z v) (lookup1 t 0%Z w))) l' && distinct_ranks t l'
   end.
 
-(* D: Compare is the preorder the ranks describe, and the suggested version is not a differently written
-   version that compares equal to the current one ("1.0" -> "1.0.0") *)
-Definition scase_dom (c : scase) : bool :=
-  s_consistent c &&
-  match s_observed c, spec_current c with
-  | SNew v, Some cur => N.eqb v cur || negb (Z.eqb (lookup1 (s_rank c) 0%Z v) (lookup1 (s_rank c) 0%Z cur))
-  | _, _ => true
-  end.
+(* D: Compare is the preorder the ranks describe *)
+Definition scase_dom (c : scase) : bool := s_consistent c.
 
 (* the property on the observed result: no panic; a suggested version is within the level of, and
    not below, the current one; a changed requirement is strictly above it *)
@@ -139,7 +133,7 @@ Definition scase_prop_ok (c : scase) : bool :=
       | Some cur =>
           sugg_within_level N (lookup2 (s_dif c) DiffOther) (s_level c) cur v &&
           sugg_not_down N (rank_cmp (s_rank c)) cur v &&
-          (N.eqb v cur || is_lt (rank_cmp (s_rank c) cur v))
+          is_lt (rank_cmp (s_rank c) cur v)
       end
   end.
 
@@ -177,9 +171,7 @@ Definition qcase_none_ok (c : qcase) : bool :=
 Definition qcase_prop_ok (c : qcase) : bool :=
   match q_observed c with
   | SuggOk ups => qcase_none_ok c &&
-                  (* (VersionFrom and VersionTo are different strings: Eq means differently written twins) *)
-                  forallb (fun j => let '(p, cm, d) := j in
-                                    match cm with Eq => true | _ => is_lt cm && allows (config_get (q_cfg c) p) d end) (q_judged c)
+                  forallb (fun j => let '(p, cm, d) := j in is_lt cm && allows (config_get (q_cfg c) p) d) (q_judged c)
   | SuggErr => true
   | SuggPanic => false
   end.
@@ -198,8 +190,8 @@ Record ucase := {
   u_cmp : comparison;        (* Compare(version without the update, version with it) *)
   u_dif : diff;              (* Difference of the two *)
   u_op : N;                  (* relax: 0 = "~", 1 = "^", 2 = other *)
-  u_listed : bool;           (* the two versions are not differently written versions that compare equal
-                                (2.0.2.Final -> 2.0.2): the only way equal-in-order versions escape the claim *)
+  u_listed : bool;           (* override only: the two versions are not differently written versions that compare
+                                equal (2.0.2.Final -> 2.0.2; wf_versions premise of override_strictly_up) *)
   u_honoured : bool;         (* override, update: the package resolves to what the old / new requirement asks for *)
   u_indep : bool;            (* the other updates of the run leave this package where the original manifest has it *)
   u_consistent : bool
@@ -211,7 +203,7 @@ Definition ucase_model_ok (c : ucase) : bool := true.
 Definition ucase_dom (c : ucase) : bool :=
   u_consistent c &&
   match u_strategy c with
-  | 0%N => u_listed c && u_honoured c
+  | 0%N => u_honoured c
   | 1%N => valid_level (u_level c)
   | _ => u_listed c && u_honoured c && u_indep c
   end.
